@@ -9,6 +9,7 @@ A9 mirror      statements handling side 1 have an alpha-equivalent partner for
 from __future__ import annotations
 
 import ast
+from .core import utext
 import re
 
 from .core import (AnalysisError, FuncInfo, Program, ancestors, call_name,
@@ -512,6 +513,78 @@ def swap_sides(text: str) -> str:
     return re.sub(r"[A-Za-z_][A-Za-z_0-9]*", repl, text)
 
 
+def _tv(test: ast.AST, env: dict[str, bool]):
+    """Three-valued evaluation of a guard under known flags (None = open)."""
+    if isinstance(test, ast.Name):
+        return env.get(test.id)
+    if isinstance(test, ast.Constant):
+        return bool(test.value)
+    if isinstance(test, ast.UnaryOp) and isinstance(test.op, ast.Not):
+        v = _tv(test.operand, env)
+        return None if v is None else not v
+    if isinstance(test, ast.BoolOp):
+        vals = [_tv(v, env) for v in test.values]
+        if isinstance(test.op, ast.And):
+            if any(v is False for v in vals):
+                return False
+            return True if all(v is True for v in vals) else None
+        if any(v is True for v in vals):
+            return True
+        return False if all(v is False for v in vals) else None
+    if isinstance(test, ast.Compare) and len(test.ops) == 1 and isinstance(
+            test.left, ast.Name) and test.left.id in env and isinstance(
+            test.comparators[0], ast.Constant) and isinstance(
+            test.comparators[0].value, bool):
+        same = env[test.left.id] == test.comparators[0].value
+        if isinstance(test.ops[0], (ast.Is, ast.Eq)):
+            return same
+        if isinstance(test.ops[0], (ast.IsNot, ast.NotEq)):
+            return not same
+    return None
+
+
+def guards_of(node: ast.AST) -> list[tuple[ast.AST, bool]]:
+    """(test, polarity) of every enclosing ``if``: polarity False when the
+    node sits in the else branch."""
+    out = []
+    prev = node
+    for a in ancestors(node):
+        if isinstance(a, ast.If) and not any(prev is x for x in [a.test]):
+            in_body = any(prev is b for b in a.body)
+            in_else = any(prev is b for b in a.orelse)
+            if in_body or in_else:
+                out.append((a.test, in_body))
+        if isinstance(a, ast.FunctionDef):
+            break
+        prev = a
+    return out
+
+
+def full_mode_reachable(node: ast.AST) -> bool:
+    """False when node only runs in subgraph mode (subgraph=True)."""
+    for test, pol in guards_of(node):
+        v = _tv(test, {"subgraph": False})
+        if v is not None and v != pol:
+            return False
+    return True
+
+
+def full_mode_guards(node: ast.AST) -> list[ast.AST]:
+    """Guard tests that still matter when subgraph=False, as positive
+    conditions (else-branch guards negated), mode-only guards dropped."""
+    out = []
+    for test, pol in guards_of(node):
+        if _tv(test, {"subgraph": False}) is not None:
+            continue
+        # drop conjuncts that are decided by the mode flag
+        if isinstance(test, ast.BoolOp) and isinstance(test.op, ast.And) and pol:
+            keep = [v for v in test.values
+                    if _tv(v, {"subgraph": False}) is None]
+            test = keep[0] if len(keep) == 1 else ast.BoolOp(ast.And(), keep)
+        out.append(test if pol else ast.UnaryOp(ast.Not(), test))
+    return out
+
+
 def leaf_texts(fi: FuncInfo, skip_subgraph: bool) -> list[tuple[str, ast.AST]]:
     out = []
 
@@ -546,7 +619,7 @@ def leaf_texts(fi: FuncInfo, skip_subgraph: bool) -> list[tuple[str, ast.AST]]:
             txt = norm(node, 300)
         if txt is None:
             continue
-        if skip_subgraph and in_subgraph_branch(node):
+        if skip_subgraph and not full_mode_reachable(node):
             continue
         out.append((txt, node))
     return out
@@ -598,109 +671,278 @@ def check_mirror(prog: Program, res: Result) -> None:
 # main loop: paired state, fresh yields
 # ---------------------------------------------------------------------------
 
-def _event(st: ast.AST) -> str | None:
-    """Token for one statement of the search loop."""
-    t = norm(st, 300)
+# -- small propositional engine for path conditions -------------------------
+
+class PathLogic:
+    """Guards of a syntactic path as a propositional formula over opaque atoms
+    (normalised text of the maximal non-boolean sub-expressions); boolean
+    locals that are assigned once are read through their definition."""
+
+    def __init__(self, booldefs: dict[str, ast.AST]):
+        self.booldefs = booldefs
+
+    def atoms(self, e: ast.AST, seen=()) -> set[str]:
+        if isinstance(e, ast.BoolOp):
+            return set().union(*(self.atoms(v, seen) for v in e.values))
+        if isinstance(e, ast.UnaryOp) and isinstance(e.op, ast.Not):
+            return self.atoms(e.operand, seen)
+        if isinstance(e, ast.Name) and e.id in self.booldefs and \
+                e.id not in seen:
+            return self.atoms(self.booldefs[e.id], seen + (e.id,))
+        if isinstance(e, ast.Constant):
+            return set()
+        return {self.key(e)}
+
+    @staticmethod
+    def key(e: ast.AST) -> str:
+        # a != b  and  a == b share one atom (negated)
+        if isinstance(e, ast.Compare) and len(e.ops) == 1 and isinstance(
+                e.ops[0], (ast.NotEq, ast.NotIn, ast.IsNot)):
+            return norm(_negate(e), 200)
+        return norm(e, 200)
+
+    def value(self, e: ast.AST, env: dict[str, bool], seen=()) -> bool:
+        if isinstance(e, ast.BoolOp):
+            vals = [self.value(v, env, seen) for v in e.values]
+            return all(vals) if isinstance(e.op, ast.And) else any(vals)
+        if isinstance(e, ast.UnaryOp) and isinstance(e.op, ast.Not):
+            return not self.value(e.operand, env, seen)
+        if isinstance(e, ast.Name) and e.id in self.booldefs and \
+                e.id not in seen:
+            return self.value(self.booldefs[e.id], env, seen + (e.id,))
+        if isinstance(e, ast.Constant):
+            return bool(e.value)
+        if isinstance(e, ast.Compare) and len(e.ops) == 1 and isinstance(
+                e.ops[0], (ast.NotEq, ast.NotIn, ast.IsNot)):
+            return not env[self.key(e)]
+        return env[self.key(e)]
+
+    def models(self, guards: list[tuple[ast.AST, bool]]):
+        """All assignments of the atoms that satisfy every guard."""
+        import itertools
+        names = sorted(set().union(*(self.atoms(g) for g, _ in guards))) \
+            if guards else []
+        if len(names) > 12:
+            raise AnalysisError("path condition with more than 12 atoms")
+        for bits in itertools.product((False, True), repeat=len(names)):
+            env = dict(zip(names, bits))
+            if all(self.value(g, env) == pol for g, pol in guards):
+                yield env
+
+    def satisfiable(self, guards) -> bool:
+        return next(self.models(guards), None) is not None
+
+    def implies(self, guards, atom: str, val: bool) -> bool | None:
+        """guards |= (atom == val); None when the atom does not occur."""
+        seen = False
+        for env in self.models(guards):
+            if atom not in env:
+                return None
+            seen = True
+            if env[atom] != val:
+                return False
+        return True if seen else None
+
+
+def _loop_event(st: ast.AST):
+    """Event tuple of one statement of the search loop (canonical names)."""
     if isinstance(st, ast.Assign) and len(st.targets) == 1:
-        tgt = norm(st.targets[0])
-        if re.fullmatch(r"mapping\[\w+\]", tgt):
-            return f"MAP[{norm(st.targets[0].slice)}]={norm(st.value)}"
-        if re.fullmatch(r"inverted_mapping\[\w+\]", tgt):
-            return f"INV[{norm(st.targets[0].slice)}]={norm(st.value)}"
-        if re.fullmatch(r"\w+ = mapping\.pop\(\w+\)", t):
-            return f"MAPPOP({norm(st.value.args[0])})->{tgt}"
+        t = st.targets[0]
+        if isinstance(t, ast.Subscript) and norm(t.value) == "mapping":
+            return ("MAP", norm(t.slice), norm(st.value))
+        if isinstance(t, ast.Subscript) and norm(t.value) == "inverted_mapping":
+            return ("INV", norm(t.slice), norm(st.value))
+        v = st.value
+        if isinstance(v, ast.Call) and call_name(v) == "mapping.pop" and v.args:
+            return ("MAPPOP", norm(v.args[0]), norm(t))
+        if isinstance(v, ast.Call) and call_name(v) == "inverted_mapping.pop" \
+                and v.args:
+            return ("INVPOP", norm(v.args[0]), norm(t))
+    if isinstance(st, ast.Delete) and len(st.targets) == 1 and isinstance(
+            st.targets[0], ast.Subscript):
+        t = st.targets[0]
+        if norm(t.value) == "mapping":
+            return ("MAPPOP", norm(t.slice), None)
+        if norm(t.value) == "inverted_mapping":
+            return ("INVPOP", norm(t.slice), None)
     if isinstance(st, ast.Expr):
         v = st.value
         if isinstance(v, (ast.Yield, ast.YieldFrom)):
-            return "YIELD"
+            return ("YIELD", norm(v.value) if v.value is not None else "")
         if isinstance(v, ast.Call):
             cn = call_name(v)
+            args = [norm(a_) for a_ in v.args]
             if cn == "mapping.pop" and v.args:
-                return f"MAPPOP({norm(v.args[0])})"
+                return ("MAPPOP", args[0], None)
             if cn == "inverted_mapping.pop" and v.args:
-                return f"INVPOP({norm(v.args[0])})"
-            if cn in ("update_state", "_update_state"):
-                return "UPDATE"
-            if cn in ("revert_state", "_revert_state"):
-                return "REVERT"
+                return ("INVPOP", args[0], None)
+            if cn == "_update_state":
+                return ("UPDATE",) + tuple(args[:2])
+            if cn == "_revert_state":
+                return ("REVERT",) + tuple(args[:2])
             if cn == "stack.append":
-                return "PUSH"
+                return ("PUSH",)
             if cn == "stack.pop":
-                return "STACKPOP"
+                return ("STACKPOP",)
     if isinstance(st, ast.Continue):
-        return "CONTINUE"
+        return ("CONTINUE",)
     if isinstance(st, (ast.Break, ast.Return)):
-        return "EXIT"
+        return ("EXIT",)
     return None
 
 
-def _paths(stmts, prefix=()):
-    """All syntactic paths through a statement list as event tuples; a path
-    ends at CONTINUE / EXIT or at the end of the list."""
+def _loop_paths(stmts, events=(), guards=()):
+    """(events, guards, ended) for every syntactic path through stmts."""
     if not stmts:
-        yield prefix, False
+        yield events, guards, False
         return
     st, rest = stmts[0], stmts[1:]
     if isinstance(st, ast.If):
-        for branch in (st.body, st.orelse):
-            for p, done in _paths(list(branch), prefix + (
-                    (f"IF {norm(st.test, 60)}" if branch is st.body
-                     else f"ELSE {norm(st.test, 60)}"),)):
+        for branch, pol in ((st.body, True), (st.orelse, False)):
+            for ev, gd, done in _loop_paths(list(branch), events,
+                                            guards + ((st.test, pol),)):
                 if done:
-                    yield p, True
+                    yield ev, gd, True
                 else:
-                    yield from _paths(rest, p)
+                    yield from _loop_paths(rest, ev, gd)
         return
-    ev = _event(st)
-    if ev in ("CONTINUE", "EXIT"):
-        yield prefix + (ev,), True
+    ev = _loop_event(st)
+    if ev and ev[0] in ("CONTINUE", "EXIT"):
+        yield events + (ev,), guards, True
         return
-    yield from _paths(rest, prefix + ((ev,) if ev else ()))
+    yield from _loop_paths(rest, events + ((ev,) if ev else ()), guards)
+
+
+def _show(ev) -> str:
+    out = []
+    for e in ev:
+        if e[0] in ("MAP", "INV"):
+            out.append(f"{e[0]}[{e[1]}]={e[2]}")
+        elif e[0] in ("MAPPOP", "INVPOP"):
+            out.append(f"{e[0]}({e[1]})" + (f"->{e[2]}" if e[2] else ""))
+        elif e[0] in ("UPDATE", "REVERT"):
+            out.append(f"{e[0]}({', '.join(e[1:])})")
+        else:
+            out.append(e[0])
+    return " > ".join(out)
+
+
+def canon_search_function(prog: Program, fi: FuncInfo) -> FuncInfo:
+    """vf2pp_all_isomorphisms with `state.mapping` / `state.inverted_mapping`
+    and their plain local aliases written as bare names."""
+    from .core import clone, set_parents
+    fn = clone(fi.node)
+    fields = record_fields(prog)["_State"]
+
+    class T(ast.NodeTransformer):
+        def visit_Attribute(self, node):
+            self.generic_visit(node)
+            if isinstance(node.value, ast.Name) and node.value.id == "state" \
+                    and node.attr in fields:
+                return ast.copy_location(ast.Name(node.attr, node.ctx), node)
+            return node
+
+    fn = T().visit(fn)
+
+    def strip(stmts):
+        out = []
+        for st in stmts:
+            for f in ("body", "orelse", "finalbody"):
+                sub = getattr(st, f, None)
+                if isinstance(sub, list) and sub and isinstance(
+                        sub[0], ast.stmt):
+                    setattr(st, f, strip(sub) or [ast.Pass()])
+            if isinstance(st, ast.Assign) and len(st.targets) == 1 and \
+                    isinstance(st.targets[0], ast.Name) and isinstance(
+                    st.value, ast.Name) and st.targets[0].id == st.value.id:
+                continue        # mapping = mapping  (was: = state.mapping)
+            out.append(st)
+        return out
+
+    fn.body = strip(fn.body)
+    ast.fix_missing_locations(fn)
+    set_parents(fn)
+    return FuncInfo(fi.qual, fi.module, fn, fi.cls)
 
 
 def check_main_loop(prog: Program, res: Result) -> None:
     res.rule("R-PAIRED-STATE", "in the search loop every mutation of "
              "`mapping` is immediately paired with the mirrored mutation of "
              "`inverted_mapping`, and from the insertion of a candidate pair "
-             "every path to the loop head takes exactly one of: undo the "
-             "pair (infeasible) / yield and undo the pair / update_state and "
-             "push the next level; backtracking pops the stack, undoes the "
-             "previous pair and reverts the state")
+             "every feasible path to the loop head takes exactly one of: undo "
+             "the pair (only when feasibility() is false) / yield and undo "
+             "the pair / update_state and push the next level (both only when "
+             "feasibility() holds for the inserted pair); backtracking pops "
+             "the stack, undoes the previous pair and reverts the state")
     res.rule("R-YIELD-FRESH", "the yielded mapping is a fresh copy of the "
              "search state, never the live dictionary")
-    fi = prog.fn(f"{MOD}:vf2pp_all_isomorphisms")
+    fi0 = prog.fn(f"{MOD}:vf2pp_all_isomorphisms")
+    # `mapping` / `inverted_mapping` may only be the record's dictionaries
+    for nm in ("mapping", "inverted_mapping"):
+        defs = [n for n in ast.walk(fi0.node) if isinstance(n, ast.Assign)
+                and any(norm(t) == nm for t in n.targets)]
+        odd = [d for d in defs if norm(d.value) != f"state.{nm}"]
+        inst = f"{fi0.short}: {nm} aliases state.{nm}"
+        if odd:
+            res.bad("R-PAIRED-STATE", f"{fi0.short}: alias {nm}",
+                    fi0.loc(odd[0]),
+                    f"`{nm}` is bound to `{norm(odd[0].value, 60)}`, not to "
+                    f"the `state.{nm}` the feasibility functions read",
+                    instance=inst)
+        else:
+            res.ok("R-PAIRED-STATE", inst, fi0.loc())
+    fi = canon_search_function(prog, fi0)
     loops = [n for n in ast.walk(fi.node) if isinstance(n, ast.While)]
     if not loops:
         raise AnalysisError("vf2pp_all_isomorphisms: search loop vanished")
     loop = loops[0]
-    # aliases: mapping = state.mapping etc. must be plain aliases
-    for nm, src in (("mapping", "state.mapping"),
-                    ("inverted_mapping", "state.inverted_mapping")):
-        defs = [n for n in ast.walk(fi.node) if isinstance(n, ast.Assign)
-                and norm(n.targets[0]) == nm]
-        if len(defs) != 1 or norm(defs[0].value) != src:
-            res.bad("R-PAIRED-STATE", f"{fi.short}: alias {nm}", fi.loc(),
-                    f"`{nm}` is not the plain alias of `{src}` the "
-                    "feasibility functions read",
-                    instance=f"{fi.short}: alias {nm}")
-        else:
-            res.ok("R-PAIRED-STATE", f"{fi.short}: {nm} aliases {src}",
-                   fi.loc(defs[0]))
-    paths = [p for p, _ in _paths(list(loop.body))]
-    if len(paths) < 4:
-        raise AnalysisError("vf2pp_all_isomorphisms: loop paths not recognised")
-    for p in paths:
-        ev = [e for e in p if not e.startswith(("IF ", "ELSE "))]
-        guards = [e for e in p if e.startswith(("IF ", "ELSE "))]
-        inst = f"{fi.short} path: " + " > ".join(ev)[:140]
-        ok, why = _path_ok(ev)
+    # boolean locals of the loop body that are assigned once
+    stores: dict[str, list[ast.AST]] = {}
+    for n in ast.walk(loop):
+        if isinstance(n, ast.Assign) and len(n.targets) == 1 and isinstance(
+                n.targets[0], ast.Name):
+            stores.setdefault(n.targets[0].id, []).append(n.value)
+    booldefs = {k: v[0] for k, v in stores.items() if len(v) == 1 and (
+        isinstance(v[0], (ast.BoolOp, ast.Compare)) or (
+            isinstance(v[0], ast.UnaryOp) and isinstance(v[0].op, ast.Not))
+        or (isinstance(v[0], ast.Call) and call_name(v[0]) in (
+            "feasibility",)))}
+    logic = PathLogic(booldefs)
+    FEAS = None
+    feas_args = None
+    for n in ast.walk(loop):
+        if isinstance(n, ast.Call) and call_name(n) == "feasibility":
+            FEAS = logic.key(n)
+            feas_args = [norm(a_) for a_ in n.args[:2]]
+    if FEAS is None:
+        res.unrecognised("R-PAIRED-STATE",
+                         f"{fi.short}: yield and descent are guarded by "
+                         "feasibility()", fi.loc(loop),
+                         "no call feasibility(u, v, state, params) in the loop")
+    n_paths = 0
+    for ev, guards, _ in _loop_paths(list(loop.body)):
+        guards = list(guards)
+        try:
+            if not logic.satisfiable(guards):
+                continue
+        except AnalysisError as e:
+            res.unrecognised("R-PAIRED-STATE", f"{fi.short}: path condition",
+                             fi.loc(loop), str(e))
+            continue
+        n_paths += 1
+        gtxt = " ; ".join(("" if pol else "not ") + norm(g, 50)
+                          for g, pol in guards)
+        inst = f"{fi.short} path: " + _show(ev)[:140]
+        ok, why = _path_verdict(ev, guards, logic, FEAS, feas_args)
         if ok:
             res.ok("R-PAIRED-STATE", inst, fi.loc(loop))
         else:
-            res.bad("R-PAIRED-STATE", f"{fi.short} path " + " > ".join(ev)[:160],
-                    fi.loc(loop), f"{fi.short}: loop path "
-                    f"[{' ; '.join(guards)[:120]}] performs "
-                    f"{' > '.join(ev)}: {why}", instance=inst)
+            res.bad("R-PAIRED-STATE", f"{fi.short} path " + _show(ev)[:160],
+                    fi.loc(loop), f"{fi.short}: loop path [{gtxt[:160]}] "
+                    f"performs {_show(ev)}: {why}", instance=inst)
+    if n_paths < 4:
+        res.unrecognised("R-PAIRED-STATE", f"{fi.short}: loop paths",
+                         fi.loc(loop), f"only {n_paths} feasible paths found")
     # yields
     ys = [n for n in ast.walk(fi.node) if isinstance(n, ast.Yield)]
     if not ys:
@@ -709,58 +951,74 @@ def check_main_loop(prog: Program, res: Result) -> None:
         t = norm(y.value)
         inst = f"{fi.short}: yield {t}"
         if t in ("mapping.copy()", "dict(mapping)", "{**mapping}",
-                 "state.mapping.copy()", "dict(state.mapping)"):
+                 "dict(mapping.items())", "copy(mapping)",
+                 "copy.copy(mapping)"):
             res.ok("R-YIELD-FRESH", inst, fi.loc(y))
-        elif t in ("mapping", "state.mapping", "inverted_mapping"):
+        elif t in ("mapping", "inverted_mapping"):
             res.bad("R-YIELD-FRESH", inst, fi.loc(y),
                     f"{fi.short} yields the live search state `{t}`; the "
                     "caller's mapping changes while the search continues")
         else:
             res.error(f"R-YIELD-FRESH: unrecognised yield `{t}`")
-    # feasibility gates the yield / descent
-    gate = [n for n in ast.walk(loop) if isinstance(n, ast.If)
-            and norm(n.test).startswith("feasibility(")]
-    inst = f"{fi.short}: yield and descent are guarded by feasibility()"
-    if gate and any(isinstance(n, ast.Yield) for n in ast.walk(
-            ast.Module(body=gate[0].body, type_ignores=[]))):
-        args = [norm(a) for a in gate[0].test.args]
-        if args[:2] == ["matching_atom", "candidate"]:
-            res.ok("R-PAIRED-STATE", inst, fi.loc(gate[0]))
-        else:
-            res.bad("R-PAIRED-STATE", f"{fi.short}: feasibility args {args}",
-                    fi.loc(gate[0]), f"{inst}: called with {args}",
-                    instance=inst)
-    else:
-        res.bad("R-PAIRED-STATE", f"{fi.short}: feasibility gate",
-                fi.loc(loop), f"{inst}: no such guard", instance=inst)
 
 
-def _path_ok(ev: list[str]) -> tuple[bool, str]:
-    s = " ".join(ev)
+def _path_verdict(ev, guards, logic: PathLogic, FEAS, feas_args):
+    kinds = [e[0] for e in ev]
     # backtracking paths
-    if ev and ev[0] == "STACKPOP":
-        if ev == ["STACKPOP", "CONTINUE"]:
+    if kinds and kinds[0] == "STACKPOP":
+        if kinds == ["STACKPOP", "CONTINUE"] or kinds == ["STACKPOP"]:
             return True, ""
-        m = re.fullmatch(r"STACKPOP MAPPOP\((\w+)\)->(\w+) INVPOP\((\w+)\) "
-                         r"REVERT CONTINUE", s)
-        if m and m.group(2) == m.group(3):
-            return True, ""
-        return False, "backtracking must pop the stack, undo the previous " \
-                      "pair in both dictionaries and revert the state"
-    m = re.match(r"MAP\[(\w+)\]=(\w+) INV\[(\w+)\]=(\w+)(.*)", s)
-    if not m:
-        return False, "the candidate pair must be inserted into mapping and " \
-                      "inverted_mapping back to back"
-    a, b, b2, a2, tail = m.groups()
-    if (a, b) != (a2, b2):
+        if kinds in (["STACKPOP", "MAPPOP", "INVPOP", "REVERT", "CONTINUE"],
+                     ["STACKPOP", "MAPPOP", "INVPOP", "REVERT"]):
+            mp, ip, rv = ev[1], ev[2], ev[3]
+            if mp[2] and ip[1] == mp[2] and rv[1:] == (mp[1], mp[2]):
+                return True, ""
+        return False, ("backtracking must pop the stack, undo the previous "
+                       "pair in both dictionaries and revert the state with "
+                       "that pair")
+    if len(ev) < 2 or kinds[0] != "MAP" or kinds[1] != "INV":
+        if not any(k in ("MAP", "INV", "MAPPOP", "INVPOP", "YIELD", "UPDATE",
+                         "PUSH") for k in kinds):
+            return True, ""           # path that does not touch the state
+        return False, ("the candidate pair must be inserted into mapping and "
+                       "inverted_mapping back to back")
+    a, b = ev[0][1], ev[0][2]
+    if (ev[1][1], ev[1][2]) != (b, a):
         return False, "inverted_mapping does not receive the mirrored pair"
-    tail = tail.strip()
-    undo = f"MAPPOP({a}) INVPOP({b})"
-    if tail in (undo, undo + " CONTINUE"):
+    tail = [e for e in ev[2:] if e[0] != "CONTINUE"]
+    tk = [e[0] for e in tail]
+
+    def undo_ok(x, y):
+        return x[0] == "MAPPOP" and x[1] == a and y[0] == "INVPOP" and \
+            y[1] == b
+
+    def entails(val):
+        if FEAS is None:
+            return None
+        return logic.implies(guards, FEAS, val)
+
+    if feas_args is not None and feas_args != [a, b]:
+        return False, (f"feasibility is asked about ({', '.join(feas_args)}) "
+                       f"but the inserted pair is ({a}, {b})")
+    if tk == ["MAPPOP", "INVPOP"] and undo_ok(*tail):
+        if entails(False) is False:
+            return False, ("a pair for which feasibility() may hold is "
+                           "dropped without yielding or descending: valid "
+                           "mappings are lost")
         return True, ""
-    if tail == f"YIELD {undo} CONTINUE":
+    if tk == ["YIELD", "MAPPOP", "INVPOP"] and undo_ok(*tail[1:]):
+        if entails(True) is False:
+            return False, ("a mapping is yielded on a path that does not "
+                           "require feasibility() to hold")
         return True, ""
-    if tail == "UPDATE PUSH":
+    if tk == ["UPDATE", "PUSH"]:
+        if tail[0][1:] != (a, b):
+            return False, (f"update_state is called with "
+                           f"({', '.join(tail[0][1:])}), not the inserted "
+                           f"pair ({a}, {b})")
+        if entails(True) is False:
+            return False, ("the search descends below a pair on a path that "
+                           "does not require feasibility() to hold")
         return True, ""
     return False, ("after inserting the pair the path must either undo it in "
                    "both dictionaries, yield and undo it, or update_state and "
@@ -955,6 +1213,110 @@ def canon_records(prog: Program, fi: FuncInfo,
     return FuncInfo(fi.qual, fi.module, fn, fi.cls)
 
 
+BOOL_CALLS = {"all", "any", "isinstance", "issubclass", "callable", "bool",
+              "hasattr"}
+BOOL_METHODS = {"issubset", "issuperset", "isdisjoint", "startswith",
+                "endswith", "has_atom", "has_bond"}
+
+
+def _boolish(e: ast.AST) -> bool:
+    """e evaluates to a bool by construction."""
+    if isinstance(e, ast.Compare):
+        return True
+    if isinstance(e, ast.UnaryOp) and isinstance(e.op, ast.Not):
+        return True
+    if isinstance(e, ast.BoolOp):
+        return all(_boolish(v) for v in e.values)
+    if isinstance(e, ast.Call):
+        cn = call_name(e) or ""
+        if cn in BOOL_CALLS:
+            return True
+        if isinstance(e.func, ast.Attribute) and e.func.attr in BOOL_METHODS:
+            return True
+    return False
+
+
+def _negate(e: ast.AST) -> ast.AST:
+    neg = {ast.Eq: ast.NotEq, ast.NotEq: ast.Eq, ast.In: ast.NotIn,
+           ast.NotIn: ast.In, ast.Is: ast.IsNot, ast.IsNot: ast.Is,
+           ast.Lt: ast.GtE, ast.GtE: ast.Lt, ast.Gt: ast.LtE, ast.LtE: ast.Gt}
+    if isinstance(e, ast.UnaryOp) and isinstance(e.op, ast.Not):
+        return e.operand
+    if isinstance(e, ast.Compare) and len(e.ops) == 1 and type(e.ops[0]) in (
+            ast.Eq, ast.NotEq, ast.In, ast.NotIn, ast.Is, ast.IsNot):
+        return ast.copy_location(ast.Compare(
+            e.left, [neg[type(e.ops[0])]()], e.comparators), e)
+    return ast.copy_location(ast.UnaryOp(ast.Not(), e), e)
+
+
+def _is_bool_const(e, val=None) -> bool:
+    return isinstance(e, ast.Constant) and isinstance(e.value, bool) and (
+        val is None or e.value is val)
+
+
+def explicit_bool_returns(fn: ast.FunctionDef) -> None:
+    """In place: ``return <boolean expression>`` -> ``if c: return True`` /
+    ``return False``; a tail ``if c: return False`` / ``return True`` is
+    turned round so that the test is the acceptance condition."""
+
+    def walk(stmts):
+        out = []
+        for st in stmts:
+            for f in ("body", "orelse", "finalbody"):
+                sub = getattr(st, f, None)
+                if isinstance(sub, list) and sub and isinstance(
+                        sub[0], ast.stmt):
+                    setattr(st, f, walk(sub))
+            for h in getattr(st, "handlers", []) or []:
+                h.body = walk(h.body)
+            if isinstance(st, ast.Return) and st.value is not None and \
+                    _boolish(st.value):
+                t = ast.copy_location(ast.If(
+                    test=st.value,
+                    body=[ast.copy_location(ast.Return(ast.Constant(True)),
+                                            st)],
+                    orelse=[]), st)
+                out.append(t)
+                out.append(ast.copy_location(
+                    ast.Return(ast.Constant(False)), st))
+                continue
+            # if c: return K1 else: return K2  ->  if c: return K1; return K2
+            if isinstance(st, ast.If) and len(st.body) == 1 and len(
+                    st.orelse) == 1 and all(
+                    isinstance(x, ast.Return) and _is_bool_const(x.value)
+                    for x in (st.body[0], st.orelse[0])):
+                tail = st.orelse[0]
+                st.orelse = []
+                out.append(st)
+                out.append(tail)
+                continue
+            out.append(st)
+        # polarity of a tail pair
+        if len(out) >= 2:
+            a, b = out[-2], out[-1]
+            if isinstance(a, ast.If) and not a.orelse and len(a.body) == 1 \
+                    and isinstance(a.body[0], ast.Return) and _is_bool_const(
+                    a.body[0].value, False) and isinstance(b, ast.Return) \
+                    and _is_bool_const(b.value, True):
+                a.test = _negate(a.test)
+                a.body[0].value = ast.Constant(True)
+                b.value = ast.Constant(False)
+        return out
+
+    fn.body = walk(fn.body)
+    ast.fix_missing_locations(fn)
+    from .core import set_parents
+    set_parents(fn)
+
+
+def canon_predicate(prog: Program, fi: FuncInfo,
+                    fields: dict[str, list[str]] | None = None) -> FuncInfo:
+    """canon_records + explicit boolean returns."""
+    c = canon_records(prog, fi, fields)
+    explicit_bool_returns(c.node)
+    return c
+
+
 def _alpha(e: ast.AST) -> str:
     """Text of e with comprehension variables renamed canonically."""
     from .core import clone
@@ -968,7 +1330,7 @@ def _alpha(e: ast.AST) -> str:
     for n in ast.walk(e):
         if isinstance(n, ast.Name) and n.id in table:
             n.id = table[n.id]
-    return re.sub(r"\s", "", ast.unparse(e))
+    return re.sub(r"\s", "", utext(e))
 
 
 def _check_candidate_paths(res: Result, fi: FuncInfo) -> None:
@@ -1217,7 +1579,7 @@ def check_feasibility(prog: Program, res: Result) -> None:
              "sets; both are registered for exactly the flags stereo / "
              "stereo_change and combined with all()")
     for fname in ("_stereo_feasibility", "_stereo_change_feasibility"):
-        fi = prog.fn(f"{MOD}:{fname}")
+        fi = canon_predicate(prog, prog.fn(f"{MOD}:{fname}"))
         # membership filters over stereo.atoms
         n_f = 0
         for node in ast.walk(fi.node):
@@ -1260,8 +1622,8 @@ def check_feasibility(prog: Program, res: Result) -> None:
             res.error(f"R-NULL-FEAS {fname}: only {n_f} descriptor-atom "
                       "comprehensions recognised")
     # comparison shape --------------------------------------------------------
-    fi = prog.fn(f"{MOD}:_stereo_feasibility")
-    txt = ast.unparse(fi.node)
+    fi = canon_predicate(prog, prog.fn(f"{MOD}:_stereo_feasibility"))
+    txt = utext(fi.node)
     u, v = fi.params()[:2]
     def req(cond, key, msg, f=fi):
         inst = f"{f.short}: {key}"
@@ -1285,8 +1647,8 @@ def check_feasibility(prog: Program, res: Result) -> None:
     req(all(any(isinstance(a, ast.If) for a in ancestors(r)) for r in rets_true)
         and bool(rets_true), "True only under the comparison",
         "returns True unconditionally")
-    fi2 = prog.fn(f"{MOD}:_stereo_change_feasibility")
-    txt2 = ast.unparse(fi2.node)
+    fi2 = canon_predicate(prog, prog.fn(f"{MOD}:_stereo_change_feasibility"))
+    txt2 = utext(fi2.node)
     u2, v2 = fi2.params()[:2]
     req(re.search(rf"g1_stereo_changes(\[|\.get\(){u2}\b", txt2) is not None
         and re.search(rf"g2_stereo_changes(\[|\.get\(){v2}\b", txt2)
@@ -1340,7 +1702,7 @@ def check_feasibility(prog: Program, res: Result) -> None:
                     f"full-graph branch with {sorted(extra) or 'no flag'}",
                     instance=inst)
     wrap = prog.fn(f"{MOD}:_wrap_all")
-    wt = ast.unparse(wrap.node)
+    wt = utext(wrap.node)
     inst = "_wrap_all combines the predicates with all()"
     if re.search(r"return all\(\(?f\(a, b, state, params\) for f in funcs\)?\)", wt):
         res.ok("R-STEREO-FEAS", inst, wrap.loc())
@@ -1430,45 +1792,37 @@ def check_prechecks(prog: Program, res: Result) -> None:
     for r in ast.walk(fi.node):
         if not (isinstance(r, ast.Return) and norm(r.value) == "None"):
             continue
-        guards = [a for a in ancestors(r) if isinstance(a, ast.If)]
-        tests = [g.test for g in guards]
-        if any("subgraph" in norm(t) and not norm(t).startswith("not subgraph")
-               for t in tests):
-            # subgraph-mode rejections are out of scope
+        if not full_mode_reachable(r):
+            continue            # subgraph-mode rejections are out of scope
+        tests = full_mode_guards(r)
+        if not tests:
             continue
         n += 1
         used = set()
         for t in tests:
             used |= {x.id for x in ast.walk(t) if isinstance(x, ast.Name)}
         extra = used - allowed
-        inst = f"{fi.short}: reject when `{norm(tests[0], 80) if tests else 0}`"
+        shown = norm(tests[0], 100)
+        inst = f"{fi.short}: reject when `{shown[:80]}`"
         if extra:
             res.bad("R-PRECHECK", inst, fi.loc(r),
                     f"{fi.short}: the pair is rejected on "
-                    f"`{norm(tests[0], 100)}`, which depends on "
+                    f"`{shown}`, which depends on "
                     f"{sorted(extra)} rather than on sizes, degrees or the "
                     "labels the caller asked to match on")
         else:
             res.ok("R-PRECHECK", inst, fi.loc(r))
+        # and each must compare the two graphs (not reject on one side alone)
+        sides = {name_side(w) for t in tests for w in re.findall(
+            r"[A-Za-z_][A-Za-z_0-9]*", norm(t, 400))} - {None}
+        inst = f"{fi.short}: `{shown[:70]}` compares both graphs"
+        if sides == {1, 2}:
+            res.ok("R-PRECHECK", inst, fi.loc(r))
+        else:
+            res.bad("R-PRECHECK", inst, fi.loc(r),
+                    f"{fi.short}: rejection `{shown}` looks at one "
+                    "graph only")
     res.need("R-PRECHECK", n, 3, "full-graph rejections")
-    # and each must compare the two graphs (not reject on one side alone)
-    for r in ast.walk(fi.node):
-        if isinstance(r, ast.Return) and norm(r.value) == "None":
-            guards = [a for a in ancestors(r) if isinstance(a, ast.If)]
-            if not guards or any("subgraph" in norm(g.test) and not norm(
-                    g.test).startswith("not subgraph") for g in guards):
-                continue
-            t = norm(guards[0].test if len(guards) == 1 else guards[0].test)
-            last = norm([g for g in guards][0].test)
-            sides = {name_side(w) for w in re.findall(
-                r"[A-Za-z_][A-Za-z_0-9]*", last)} - {None}
-            inst = f"{fi.short}: `{last[:70]}` compares both graphs"
-            if sides == {1, 2} or "subgraph" in last:
-                res.ok("R-PRECHECK", inst, fi.loc(r))
-            else:
-                res.bad("R-PRECHECK", inst, fi.loc(r),
-                        f"{fi.short}: rejection `{last[:100]}` looks at one "
-                        "graph only")
 
 
 def check_both_sides(prog: Program, res: Result) -> None:
@@ -1486,7 +1840,7 @@ def check_both_sides(prog: Program, res: Result) -> None:
     for fname, (t1, t2) in table.items():
         if not prog.has_fn(f"{MOD}:{fname}"):
             continue
-        fi = prog.fn(f"{MOD}:{fname}")
+        fi = canon_predicate(prog, prog.fn(f"{MOD}:{fname}"))
         du = DefUse(fi.node)
         rets = [r for r in ast.walk(fi.node) if isinstance(r, ast.Return)]
         last_stmt = fi.node.body[-1]
@@ -1604,8 +1958,8 @@ def check_revert(prog: Program, res: Result) -> None:
                         "(graphs with three-membered rings compare unequal "
                         "to their own renamings)", instance=inst)
         # the removed atom itself
-        t = ast.unparse(loop)
-        after = ast.unparse(fn)
+        t = utext(loop)
+        after = utext(fn)
         inst = f"_revert_state side {s_}: removed atom -> frontier iff covered neighbour else external"
         if f"if {nb} in {covered}" in t and f"frontier{s_}.add(last_atom{s_})" in t \
                 and f"external{s_}.add(last_atom{s_})" in after and \
